@@ -5,7 +5,7 @@ import os
 import jsonfam
 import verif
 
-NAPI = 16
+NAPI = 24
 
 
 def judge(ctx, cases):
@@ -56,7 +56,7 @@ def main(ctx):
     ctx.cov["rule"] = ("same transition-cover inputs as C01 (without BOM) plus newline-prefixed variants, random documents with "
                        "mutations and long inputs whose error lies behind the 4096/8192-byte refill; every input both the "
                        "specification and a front-end reject is compared on (line, column) for 5 whole-buffer front-ends and "
-                       "11 reader variants (whole, 1-byte and 3-byte reads). distinct_nontrivial = model transitions with a witness.")
+                       "19 reader variants (whole, 1-byte, 3-byte, half and data-with-EOF reads), also on refill-aligned (pad, b) inputs. distinct_nontrivial = model transitions with a witness.")
     ctx.assumptions += ["position of the first offending byte is defined by JsonText: ViablePrefix + GrammarEquiv (checked by TLC) "
                         "make the Err step the first byte after which no completion exists"]
 
